@@ -225,7 +225,7 @@ func printFileAnnotationAsGithubActions(buffer *bytes.Buffer, f FileAnnotation) 
 		path = f.FileInfo().ExternalPath()
 	}
 	_, _ = buffer.WriteString("file=")
-	_, _ = buffer.WriteString(path)
+	_, _ = buffer.WriteString(githubActionsPropertyEscaper.Replace(path))
 
 	// Everything else is optional.
 	if startLine := f.StartLine(); startLine > 0 {
@@ -250,14 +250,35 @@ func printFileAnnotationAsGithubActions(buffer *bytes.Buffer, f FileAnnotation) 
 	}
 
 	_, _ = buffer.WriteString("::")
-	_, _ = buffer.WriteString(f.Message())
+	_, _ = buffer.WriteString(githubActionsDataEscaper.Replace(f.Message()))
 	if pluginName := f.PluginName(); pluginName != "" {
 		_, _ = buffer.WriteString(" (")
-		_, _ = buffer.WriteString(pluginName)
+		_, _ = buffer.WriteString(githubActionsDataEscaper.Replace(pluginName))
 		_, _ = buffer.WriteRune(')')
 	}
 	return nil
 }
+
+// The GitHub Actions runner splits a workflow command at the first "::", splits the
+// properties on "," and unescapes the sequences below, so these characters must be
+// escaped the same way the official toolkit does it, otherwise a path or message that
+// contains them is read back as something else (or, for a newline, not read at all).
+//
+// See https://github.com/actions/toolkit/blob/main/packages/core/src/command.ts.
+var (
+	githubActionsDataEscaper = strings.NewReplacer(
+		"%", "%25",
+		"\r", "%0D",
+		"\n", "%0A",
+	)
+	githubActionsPropertyEscaper = strings.NewReplacer(
+		"%", "%25",
+		"\r", "%0D",
+		"\n", "%0A",
+		":", "%3A",
+		",", "%2C",
+	)
+)
 
 type externalFileAnnotation struct {
 	Path        string `json:"path,omitempty" yaml:"path,omitempty"`
